@@ -16,6 +16,11 @@ def grid(n):
     return [BASE + timedelta(minutes=i) for i in range(n)]
 
 
+def grid_ms(n):
+    """four event-bearing timesteps per second"""
+    return [BASE + timedelta(milliseconds=250 * i) for i in range(n)]
+
+
 def cut_points(G):
     pts = [G[0] - timedelta(seconds=30)]
     for a, b in zip(G, G[1:]):
@@ -208,6 +213,13 @@ def cases(tier):
                 for span in (None, 2):
                     for a, b in ((0, len(pts) - 1), (2, len(pts) - 3)):
                         yield (size, (), a, b, n1, span, ("relen", n2))
+    # a grid with several timesteps per second: fold bounds between two of them
+    for size in (5, 6):
+        pts = cut_points(grid_ms(size))
+        for a in range(len(pts)):
+            for b in range(a, len(pts)):
+                for n in (None, 1, 2):
+                    yield (size, (), a, b, n, None, ("subsec", 0))
     # overlapping pairs of folds on one transmitter
     G = grid(5)
     pts = cut_points(G)
@@ -221,7 +233,10 @@ def cases(tier):
 def _work(chunk):
     out = {"evaluations": 0, "episodes": 0, "violations": [], "outcomes": set(), "nontrivial": set()}
     for (size, eventless, a, b, n, span, second) in chunk:
-        G = grid(size)
+        G = grid_ms(size) if (second and second[0] == "subsec") else grid(size)
+        subsec = bool(second and second[0] == "subsec")
+        if subsec:
+            second = None
         pts = cut_points(G)
         fold = (pts[a], pts[b])
         lat = second[1] if (second and second[0] == "latent") else None
@@ -247,7 +262,7 @@ def _work(chunk):
                 out["nontrivial"].add((size, tuple(eventless), a, b, n, span, second, which))
             if msgs:
                 out["violations"].append(({"kind": "fold", "size": size, "eventless": list(eventless), "a": a, "b": b, "n": n, "span": span,
-                                           "second": list(second) if second else None, "which": which, "latent_only": lat, "descending": desc, "grown": grown, "relen": relen},
+                                           "second": list(second) if second else None, "which": which, "latent_only": lat, "descending": desc, "grown": grown, "relen": relen, "subsec": subsec},
                                           "; ".join(msgs[:3]), (msgs[0].split(" ")[0], n is None, bool(eventless))))
     return out
 
@@ -341,7 +356,7 @@ def run(tier, **kw):
 def replay(case, **kw):
     if case["kind"] == "wf":
         return check_walk_forward(case["N"], case["train"], case["test"], case["sliding"])
-    G = grid(case["size"])
+    G = grid_ms(case["size"]) if case.get("subsec") else grid(case["size"])
     pts = cut_points(G)
     fold = (pts[case["a"]], pts[case["b"]])
     fold2 = (pts[case["second"][0]], pts[case["second"][1]]) if case.get("second") else None
